@@ -4,6 +4,7 @@ import (
 	"fmt"
 	"io"
 	"os"
+	"sync"
 )
 
 type fileDisk struct {
@@ -11,6 +12,9 @@ type fileDisk struct {
 	f         *os.File
 	parts     []*partDisk
 	finalSize uint64
+
+	// protects the RAM copies of the parts, dropped by Finalize while part readers may be opened
+	mutex sync.RWMutex
 }
 
 func newFileDisk(fpath string) (File, error) {
@@ -27,6 +31,9 @@ func newFileDisk(fpath string) (File, error) {
 
 // Finalize implements File.
 func (s *fileDisk) Finalize() {
+	s.mutex.Lock()
+	defer s.mutex.Unlock()
+
 	if len(s.parts) > 0 {
 		// set size of last part
 		lastPart := s.parts[len(s.parts)-1]
